@@ -19,11 +19,18 @@ type Tape struct {
 	replay bool
 	// Overrun counts how many draws went past the recorded tape (replay only).
 	Overrun int
+	// OverrunLimit, when > 0, makes a replay panic with OverrunPanic once that many draws went past
+	// the tape: a minimisation candidate must not be able to spin in a loop that only a non-zero
+	// draw would leave.
+	OverrunLimit int
 	// Spans are the [start,end) tape ranges of self-contained decisions (one
 	// slot, one operation). Deleting a whole span keeps the rest aligned.
 	Spans []Span
 	depth int
 }
+
+// OverrunPanic unwinds a replay that drew far more values than the run it was derived from.
+type OverrunPanic struct{}
 
 type Span struct {
 	Start, End, Depth int
@@ -96,6 +103,9 @@ func (t *Tape) next() uint32 {
 		if t.pos >= len(t.Rec) {
 			t.pos++
 			t.Overrun++
+			if t.OverrunLimit > 0 && t.Overrun > t.OverrunLimit {
+				panic(OverrunPanic{})
+			}
 			return 0
 		}
 		v := t.Rec[t.pos]
